@@ -3,7 +3,7 @@
    the code after fixes/C10_reset_class_state.diff, C10_sticky_flags.diff and C10_unaligned_per_sample.diff; process_sample_cur is the
    code before them and is refuted by witnesses. *)
 From Coq Require Import ZArith List Bool Permutation.
-From IQ Require Import Orchestration OrchestrationProofs.
+From IQ Require Import CorrSupport Orchestration OrchestrationProofs OrchestrationInput OrchestrationInputProofs.
 Import ListNotations.
 Open Scope Z_scope.
 
@@ -86,3 +86,22 @@ Example C10_combined_example :
   combine_tables false [[(2, 100); (1, 250); (7, 0); (8, 0); (9, 0)]; [(3, 5); (1, 11); (7, 0); (8, 0); (9, 0)]]
   = [(1, [Some 250; Some 11]); (2, [Some 100; None]); (3, [None; Some 5])].
 Proof. reflexivity. Qed.
+
+(* ---- experiment names (= output directories) parsed from a list file / YAML file are pairwise different (after
+        fixes/C10_renamed_name_clash.diff; `true` selects the repaired renaming rule) *)
+Theorem C10_list_experiment_names_distinct : forall prefix lines samples, parse_list true prefix lines = Ok samples -> NoDup (map sm_name samples).
+Proof. exact list_experiment_names_distinct. Qed.
+Print Assumptions C10_list_experiment_names_distinct.
+Theorem C10_yaml_experiment_names_distinct : forall prefix dir fmt es samples, parse_yaml true prefix dir fmt es = Ok samples -> NoDup (map sm_name samples).
+Proof. exact yaml_experiment_names_distinct. Qed.
+Print Assumptions C10_yaml_experiment_names_distinct.
+(* current code: "#P2 / a.bam / #A / x1.bam / #A / x2.bam" with prefix P: the duplicate A becomes P2, the name of the first experiment *)
+Example C10_experiment_names_current_code_refuted :
+  match parse_list false [80] [[35;80;50;10]; [97;46;98;97;109;10]; [35;65;10]; [120;49;46;98;97;109;10]; [35;65;10]; [120;50;46;98;97;109;10]] with
+  | Ok [s1; s2; s3] => sm_name s1 = [80; 50] /\ sm_name s3 = [80; 50]
+  | _ => False
+  end.
+Proof. exact list_experiment_names_current_code_refuted. Qed.
+Example C10_experiment_names_repaired_example :
+  parse_list true [80] [[35;80;50;10]; [97;46;98;97;109;10]; [35;65;10]; [120;49;46;98;97;109;10]; [35;65;10]; [120;50;46;98;97;109;10]] = Raises 1.
+Proof. exact list_experiment_names_repaired_on_the_witness. Qed.
